@@ -159,7 +159,7 @@ dispatch_walltime(const struct timespec *inval, int64_t delta)
 		// -1 is special == DISPATCH_TIME_FOREVER == forever
 		return delta >= 0 ? DISPATCH_TIME_FOREVER : (dispatch_time_t)-2ll;
 	}
-	return (dispatch_time_t)-nsec;
+	return _dispatch_clock_and_value_to_time(DISPATCH_CLOCK_WALL, (uint64_t)nsec);
 }
 
 uint64_t
